@@ -87,7 +87,11 @@ func verdict(content string, m mode, cs *explore.Case) {
 		// file, so the field has an empty / short position range; problems then carry line 0 and the
 		// console renderer panics (slices.Max on an empty list, lines[-1]).
 		v := inner.Viol[0]
-		cs.Violate("field-position-range-incomplete", "a field value has an incomplete position range: "+v.What+" ("+v.Sig+")", v.Detail)
+		sig := "field-position-range-incomplete"
+		if inner.Stats["quoted_multiline_without_position"] == inner.Stats["fields_without_position"] || outdentedQuotedContinuation(content) {
+			sig = "multiline-quoted-scalar-position-range-incomplete"
+		}
+		cs.Violate(sig, "a field value has an incomplete position range: "+v.What+" ("+v.Sig+")", v.Detail)
 		return
 	}
 	if len(inner.Viol) > 0 && hasLoneCR(content) {
@@ -98,6 +102,21 @@ func verdict(content string, m mode, cs *explore.Case) {
 		return
 	}
 	cs.Viol = append(cs.Viol, inner.Viol...)
+}
+
+// outdentedQuotedContinuation: some line opens a quoted scalar it does not close and the next line is
+// indented no deeper than that line's key.
+func outdentedQuotedContinuation(content string) bool {
+	ls := strings.Split(content, "\n")
+	ind := func(l string) int { return len(l) - len(strings.TrimLeft(l, " ")) }
+	for i := 0; i+1 < len(ls); i++ {
+		for _, q := range []string{"\"", "'"} {
+			if strings.Count(ls[i], q)%2 == 1 && strings.Contains(ls[i], ": "+q) && ind(ls[i+1]) <= ind(ls[i]) {
+				return true
+			}
+		}
+	}
+	return false
 }
 
 func hasLoneCR(s string) bool {
@@ -120,6 +139,15 @@ func verdict1(content string, m mode, cs *explore.Case) {
 		for _, f := range pipeline.Fields(e.Rule) {
 			if f.Node != nil && len(f.Node.Value) > 0 && f.Node.Pos.Len() < len(strings.ReplaceAll(strings.ReplaceAll(f.Node.Value, " ", ""), "\n", "")) {
 				cs.Count("fields_without_position", 1)
+				if len(f.Node.Pos) > 0 {
+					p0 := f.Node.Pos[0]
+					ls := strings.Split(content, "\n")
+					if p0.Line >= 1 && p0.Line <= len(ls) && p0.FirstColumn >= 2 && p0.FirstColumn-2 < len(ls[p0.Line-1]) {
+						if q := ls[p0.Line-1][p0.FirstColumn-2]; (q == '"' || q == '\'') && strings.Count(ls[p0.Line-1], string(q))%2 == 1 {
+							cs.Count("quoted_multiline_without_position", 1)
+						}
+					}
+				}
 			}
 		}
 	}
